@@ -41,6 +41,8 @@ def handle : Handler := fun m j =>
       return obj [("tokens", Json.arr (ts.map tokJ).toArray),
                   ("s", Json.str (String.ofList (render ts))),
                   ("wf", Json.bool (swf s)),
+                  ("wfx", Json.bool (swfX s)),
+                  ("nz", Json.arr (envs.map (fun env => Json.bool (denNZ env s))).toArray),
                   ("parsed", optJ exprToJson parsed),
                   ("surf", exprToJson (surf s)),
                   ("den", exprToJson den),
